@@ -67,10 +67,18 @@ def make_free_energy(h, nf, paranoid, maxsteps=2, obj=None):
         a, b, c = h.fresh("H11", -10, 10, default=2.0), h.fresh("H12", -10, 10, default=0.3), h.fresh("H22", -10, 10, default=1.0)
         return np.array([[a, b], [b, c]], dtype=object if h.symbolic else float)
 
+    names_v = [f"a{i}" for i in range(nf)] + ["T"]
+    Veff = h.ufun("Veff", eval(f"lambda {', '.join(names_v)}: -1.0 - 0.01 * T + 0.1 * ({' + '.join(n + '*' + n for n in names_v[:-1])})"))
+
+    def V_at(point, T):
+        pt = [core.unbox(x) for x in np.ravel(np.asarray(point))[:nf]]
+        return Veff(*pt, core.unbox(np.asarray(T)))
+
     class Pot:
         def findLocalMinimum(self, guess, T, tol=None):
+            # contract: the value reported is the potential at the reported minimum
             p = fresh_point("min")
-            return np.array([p], dtype=object if h.symbolic else float), np.array([h.fresh("Vmin", -100, 100, default=-1.0)], dtype=object if h.symbolic else float)
+            return np.array([p], dtype=object if h.symbolic else float), np.array([V_at(p, T)], dtype=object if h.symbolic else float)
 
         def deriv2Field2(self, fp, T):
             H = hessian(T)
@@ -88,8 +96,9 @@ def make_free_energy(h, nf, paranoid, maxsteps=2, obj=None):
             return np.array([h.fresh("dV", -1, 1, default=0.0) for _ in range(nf)], dtype=object if h.symbolic else float)
 
         def evaluate(self, f, T):
-            return np.array([h.fresh("Veval", -100, 100, default=-1.0)], dtype=object if h.symbolic else float)
+            return np.array([V_at(f, T)], dtype=object if h.symbolic else float)
     fe.effectivePotential = Pot()
+    fe._verif_V_at = V_at
 
     # eigenvalues of small symmetric matrices
     def eigvalsh(Hm):
@@ -185,6 +194,10 @@ def h_trace(h, nf, paranoid, maxsteps=2):
     h.prove("table abscissae strictly increasing", AND(*[lt(Ts[i], Ts[i + 1]) for i in range(n - 1)]) if n > 1 else Cond(b=True))
     h.prove("table contains the starting temperature", OR(*[eq(t, T0) for t in Ts]))
     h.prove("row width = fields + potential", Cond(b=table["rows"].shape == (n, nf + 1)))
+    if table["rows"].shape == (n, nf + 1):
+        for i in range(n):
+            h.prove_eq(f"tabulated free energy at point {i} = the potential at the tabulated field values and temperature",
+                       table["rows"][i, nf], fe._verif_V_at(table["rows"][i, :nf], Ts[i]))
     # accepted steps: those after which the loop appended (spinodal test passed, no collapse)
     # every tabulated temperature other than T0 must be a step whose Hessian was tested
     # positive definite at the tabulated field value
